@@ -365,7 +365,14 @@ def run_case(case, gen_rng=None):
                 k.switches = {int(a): b for a, b in op['switches'].items()}
                 k._line_switches = bool(op['line_p'])
                 k.p_line = 0
-            results = k.run_tasks(ts)
+            # probe tokens name the task that produced them; the cold reference runs every call as
+            # task 0, so the pair's tokens are labelled 0 too (a textual rewrite afterwards missed
+            # tokens that the spec had split into characters or that a trace line had truncated)
+            k.tok_label = 0
+            try:
+                results = k.run_tasks(ts)
+            finally:
+                k.tok_label = None
             if gen_rng is not None:
                 op['switches'] = {str(a): b for a, b in sorted(k.switches.items())}
             k.gen_rng, k.p_point, k.p_line, k._line_switches = None, 0, 0, False
@@ -374,8 +381,6 @@ def run_case(case, gen_rng=None):
             state_epoch += 1
             for idx, x in enumerate((i, j)):
                 out = canon.outcome(results[idx], B.idmap)
-                # task ids differ from the cold run only in 'tok' payloads; normalise task id
-                out = _norm_task(out, idx)
                 exp = cold.outcome(x, x, path_star, regs)
                 trace.append(['pair', x, idx, simrun.jhash(out)])
                 if exp != out and not canon.mentions_recursion([exp, out]):
@@ -425,15 +430,6 @@ def _aliased_literal(v, arg_literals, depth=0, seen=None):
         if r:
             return r
     return None
-
-
-def _norm_task(out, idx):
-    if idx == 0:
-        return out
-    import json
-    s = json.dumps(out)
-    s = s.replace(f'tok:{idx}:', 'tok:0:')
-    return json.loads(s)
 
 
 def _which(a, b):
